@@ -1766,6 +1766,10 @@ class ListBox(Widget, WidgetContainerMixin):
             if not rows:
                 continue
 
+            if row_offset + rows <= 0:
+                # scrolled completely off the top by this page: not a candidate
+                continue
+
             # try selecting this widget
             pref_row = min(maxrow - row_offset - 1, rows - 1)
 
